@@ -12,6 +12,7 @@ pub mod c22;
 pub mod c23;
 pub mod c25;
 pub mod c14;
+pub mod c26;
 pub mod c27;
 pub mod c29;
 pub mod c29_core;
@@ -33,6 +34,7 @@ pub fn dispatch(ctx: &Ctx) -> i32 {
         "C23" => c23::run(ctx, &mut rec),
         "C25" => c25::run(ctx, &mut rec),
         "C14" => c14::run(ctx, &mut rec),
+        "C26" => c26::run(ctx, &mut rec),
         "C27" => c27::run(ctx, &mut rec),
         "C29" => c29::run(ctx, &mut rec),
         other => {
